@@ -688,3 +688,35 @@ Proof.
   cbn [obind]. rewrite (sim_iter env_x enc1 (fun x => [x]) _ _ gen_prox_dca_body), traceL_single. reflexivity.
 Qed.
 End GenDCA.
+
+(* ============ resumption of the generated programs through the caller's x ============ *)
+Lemma gen_lw_resume (A : Rvec -> Rvec) (Dadj : Rvec -> Rvec -> Rvec) (proj : Rvec -> Rvec) (omega : R)
+  (junk : string -> Rvec) (n m : nat) (x rhs : Rvec) :
+  exists s1 x1 s2 s12,
+    run_prog (lw_I A Dadj proj omega junk) landweber_pre landweber_body n (mk_hst env_lw_in [x; rhs] []) = Some s1
+    /\ deref s1 "caller.x" = Some x1
+    /\ run_prog (lw_I A Dadj proj omega junk) landweber_pre landweber_body m (mk_hst env_lw_in [x1; rhs] []) = Some s2
+    /\ run_prog (lw_I A Dadj proj omega junk) landweber_pre landweber_body (n + m) (mk_hst env_lw_in [x; rhs] []) = Some s12
+    /\ deref s2 "caller.x" = deref s12 "caller.x".
+Proof.
+  destruct (gen_lw_run A Dadj proj omega junk n x rhs) as (s1 & H1 & Hx1 & _).
+  destruct (gen_lw_run A Dadj proj omega junk m (iter n (landweber_step A Dadj proj rhs omega) x) rhs) as (s2 & H2 & Hx2 & _).
+  destruct (gen_lw_run A Dadj proj omega junk (n + m) x rhs) as (s12 & H12 & Hx12 & _).
+  exists s1, (iter n (landweber_step A Dadj proj rhs omega) x), s2, s12.
+  repeat (split; [assumption|]). rewrite Hx2, Hx12, iter_add. reflexivity.
+Qed.
+(* steepest descent: the second call starts without the "#returned" marker of the first *)
+Lemma gen_sd_resume (grad proj : Rvec -> Rvec) (step tol : R) (junk : string -> Rvec) (n m : nat) (x : Rvec) :
+  exists s1 x1 s2 s12,
+    run_prog (sd_I grad proj step tol junk) steepest_descent_pre steepest_descent_body n (mk_hst env_x [x] []) = Some s1
+    /\ deref s1 "caller.x" = Some x1
+    /\ run_prog (sd_I grad proj step tol junk) steepest_descent_pre steepest_descent_body m (mk_hst env_x [x1] []) = Some s2
+    /\ run_prog (sd_I grad proj step tol junk) steepest_descent_pre steepest_descent_body (n + m) (mk_hst env_x [x] []) = Some s12
+    /\ deref s2 "caller.x" = deref s12 "caller.x".
+Proof.
+  destruct (gen_sd_run grad proj step tol junk n x) as (s1 & H1 & Hx1 & _).
+  destruct (gen_sd_run grad proj step tol junk m (fst (iter n (sd_step grad proj step tol) (x, false)))) as (s2 & H2 & Hx2 & _).
+  destruct (gen_sd_run grad proj step tol junk (n + m) x) as (s12 & H12 & Hx12 & _).
+  exists s1, (fst (iter n (sd_step grad proj step tol) (x, false))), s2, s12.
+  repeat (split; [assumption|]). rewrite Hx2, Hx12, sd_resume. reflexivity.
+Qed.
